@@ -180,7 +180,9 @@ fn cmd_replay(args: &[String], show: bool) -> i32 {
         }
     };
     let mut ctx = Ctx::new(show);
-    worlds::execute(&plan, &mut ctx);
+    if let Err(p) = guarded(|| worlds::execute(&plan, &mut ctx)) {
+        ctx.violate(&plan.prop, "escaped_panic", &plan.world, format!("panic {:?} at {}", p.msg, p.short_loc()));
+    }
     if show {
         for l in &ctx.trace_lines {
             println!("{}", l);
@@ -242,7 +244,11 @@ fn cmd_traces(args: &[String]) -> i32 {
         }
         let pow = plan.gets("kind").starts_with("ewma") || plan.gets("nodes").contains("exp.");
         let mut ctx = Ctx::new(full);
-        worlds::execute(&plan, &mut ctx);
+        // a panic that escapes an executor (e.g. in harness set-up code that calls rrtk) must not
+        // take the other runs down: it becomes part of this run's trace
+        if let Err(p) = guarded(|| worlds::execute(&plan, &mut ctx)) {
+            ctx.trace(&format!("ESCAPED-PANIC {:?} at {}", p.msg, p.short_loc()));
+        }
         println!("RUN {} {:016x} v={} pow={} world={} ops={}", idx, ctx.trace_hash, ctx.violations.len(), pow as u8, plan.world, plan.ops.len());
         if full {
             for l in &ctx.trace_lines {
